@@ -133,6 +133,16 @@ def run_harness(ctx, scenarios, label, shards=None, race=False, timeout=900):
         for p, out, pr in ex.map(one, files):
             if 'WARNING: DATA RACE' in pr.stderr:
                 racelog.append(pr.stderr[-6000:])
+            elif pr.returncode != 0 and ('all goroutines are asleep' in pr.stderr or 'fatal error:' in pr.stderr or 'panic:' in pr.stderr) \
+                    and 'github.com/dgrr/http2.' in pr.stderr:
+                # the Go runtime gave up on the process with the library on the stack (global deadlock, fatal error, panic
+                # that nothing recovered): a fact about the code under test, judged by crashed() (C17 owns the verdict)
+                if not hasattr(ctx, 'crashes'):
+                    ctx.crashes = []
+                ctx.crashes.append((p, pr.stderr[-6000:]))
+                if os.path.exists(out):
+                    os.remove(out)
+                continue
             elif pr.returncode != 0:
                 raise vlib.Inconclusive('h2v srv failed on %s rc=%d: %s' % (p, pr.returncode, (pr.stdout + pr.stderr)[-2000:]))
             if os.path.exists(out):
@@ -141,6 +151,24 @@ def run_harness(ctx, scenarios, label, shards=None, race=False, timeout=900):
                         mf.write(ln)
                 os.remove(out)
     return merged, racelog
+
+
+def crashed(ctx, props, label):
+    """A harness process the Go runtime killed with the library on the stack: C17 ("serving the connection never
+    panics ...") owns the verdict; confirmed by running that shard of scenarios once more."""
+    for p, log in getattr(ctx, 'crashes', []):
+        kind = 'deadlocked' if 'all goroutines are asleep' in log else 'crashed'
+        if 'C17' not in props:
+            raise vlib.Inconclusive('h2v srv %s on %s (C17 owns this verdict):\n%s' % (kind, p, log[-1500:]))
+        pr = subprocess.run([ctx.harness(), 'srv', '--in', p, '--out', p + '.again'], cwd=ctx.scratch, stdout=subprocess.PIPE, stderr=subprocess.PIPE, text=True, timeout=900)
+        if pr.returncode != 0 and 'github.com/dgrr/http2.' in pr.stderr:
+            lines = [l for l in log.splitlines() if 'github.com/dgrr/http2.' in l][:8]
+            ctx.report('C17:process-' + kind, '%s: C17:process-%s (the Go runtime stopped the harness process; library frames: %s)' % (label, kind, ' | '.join(x.strip() for x in lines)[:400]),
+                       {'kind': 'srv-shard', 'clause': 'C17:process-' + kind, 'scenarios': [json.loads(l) for l in open(p)], 'log': log[-3000:]})
+        else:
+            ctx.extra.setdefault('unconfirmed_clauses', []).append('process %s in %s' % (kind, os.path.basename(p)))
+            print('UNCONFIRMED property=%s clause=C17:process-%s (not reproduced; not counted)' % (ctx.prop, kind), flush=True)
+    ctx.crashes = []
 
 
 def validate(ctx, tracefile, defects=''):
@@ -215,6 +243,8 @@ def judge(ctx, scenarios, tracefile, props=None, label='srv', confirm=True):
                 others[c.split(' ')[0]] = others.get(c.split(' ')[0], 0) + 1
     if others:
         ctx.extra.setdefault('other_property_clauses_seen', {}).update(others)
+    if confirm:
+        crashed(ctx, props, label)
     return bad
 
 
